@@ -83,12 +83,21 @@ def isXmlStr (v : Span) : Res Unit :=
   else isXmlStrUnicode T txt (v.bytes.length + 1) v.off v.bytes
 
 /-- `parse_attribute` (only used for the pseudo-attributes of the XML declaration). -/
-def parseAttribute (s : Stream) : Res Stream := do
-  let (s, _, _) ← s.consumeQName T txt
+def parseAttribute (s : Stream) : Res (Stream × Span × Span) := do
+  let (s, pfx, loc) ← s.consumeQName T txt
   let s ← s.consumeEq T txt
   let (s, quote) ← s.consumeQuote txt
   let (s, _) ← s.consumeChars T txt (fun _ c => c != quote.toNat && c != 60)
-  s.consumeByte txt quote
+  let s ← s.consumeByte txt quote
+  pure (s, pfx, loc)
+
+/-- The local `parse_pseudo_attribute` of `parse_declaration` (D18 repair): the attribute read
+must have exactly the expected name. -/
+def parsePseudoAttribute (s : Stream) (name : Bytes) : Res Stream := do
+  let start := s.pos
+  let (s, pfx, loc) ← parseAttribute T txt s
+  if !pfx.bytes.isEmpty || loc.bytes != name then errFrom txt (.invalidString name) start
+  else pure s
 
 /-- The local `consume_spaces` of `parse_declaration`. -/
 def declConsumeSpaces (s : Stream) : Res Stream :=
@@ -105,14 +114,14 @@ def declEnd (s : Stream) : Res Stream := (s.skipSpaces T).skipString txt Lit.piE
 /-- `if s.starts_with(b"standalone") { parse_attribute(s)? }`, then the end -/
 def declStandalone (s : Stream) : Res Stream :=
   if s.startsWith Lit.standalone then do
-    let s ← parseAttribute T txt s
+    let s ← parsePseudoAttribute T txt s Lit.standalone
     declEnd T txt s
   else declEnd T txt s
 
 /-- `if s.starts_with(b"encoding") { parse_attribute(s)?; consume_spaces(s)? }`, then the rest -/
 def declEncoding (s : Stream) : Res Stream :=
   if s.startsWith Lit.encoding then do
-    let s ← parseAttribute T txt s
+    let s ← parsePseudoAttribute T txt s Lit.encoding
     let s ← declConsumeSpaces T txt s
     declStandalone T txt s
   else declStandalone T txt s
@@ -124,7 +133,7 @@ def parseDeclaration (s : Stream) : Res Stream := do
   if !(s.startsWith Lit.version) then
     s.skipString txt Lit.version
   else
-    let s ← parseAttribute T txt s
+    let s ← parsePseudoAttribute T txt s Lit.version
     let s ← declConsumeSpaces T txt s
     declEncoding T txt s
 
@@ -147,7 +156,8 @@ def parsePi (s : Stream) : TM Stream := do
     let start := s.pos
     let s ← lift (s.advance 2)
     let (s, target) ← lift (s.consumeName T txt)
-    let s := s.skipSpaces T
+    -- D17 repair: white space is required between the target and the content
+    let s ← lift (declConsumeSpaces T txt s)
     let (s, content) ← lift (s.consumeChars T txt (fun s c => !(c == 63 && s.startsWith Lit.piEnd)))
     let content := if !content.bytes.isEmpty then some content else none
     let s ← lift (s.skipString txt Lit.piEnd)
